@@ -376,7 +376,11 @@ func (r *rw) exprSeams(b *ast.BlockStmt) {
 							r.rep.ClockSeams = append(r.rep.ClockSeams, "time."+sel.Sel.Name+" at "+r.where(n.Pos()))
 							n.Fun = &ast.SelectorExpr{X: ast.NewIdent("verifsim"), Sel: ast.NewIdent(sel.Sel.Name)}
 							r.touched["time"] = true
-						case "After", "Tick", "NewTimer", "NewTicker", "AfterFunc":
+						case "AfterFunc":
+							r.rep.ClockSeams = append(r.rep.ClockSeams, "time.AfterFunc at "+r.where(n.Pos()))
+							n.Fun = &ast.SelectorExpr{X: ast.NewIdent("verifsim"), Sel: ast.NewIdent("AfterFunc")}
+							r.touched["time"] = true
+						case "After", "Tick", "NewTimer", "NewTicker":
 							r.rep.Unmodelled = append(r.rep.Unmodelled, "time."+sel.Sel.Name+" at "+r.where(n.Pos()))
 						}
 						return true
